@@ -265,3 +265,19 @@ func Replaying() bool { return os.Getenv("VERIF_REPLAY") != "" }
 
 // Thorough reports whether the driver runs the thorough tier.
 func Thorough() bool { return os.Getenv("VERIF_TIER") == "thorough" }
+
+// WriteInProgress leaves the case that is about to run on disk (overwritten
+// case by case), for checks whose failure mode kills the process.
+func WriteInProgress(property, test string, c any, msg string) {
+	dir := os.Getenv("VERIF_REPLAY_DIR")
+	if dir == "" {
+		return
+	}
+	cb, err := json.Marshal(c)
+	if err != nil {
+		return
+	}
+	b, _ := json.Marshal(ReplayFile{Property: property, Test: test, Message: msg, Sig: "process-died", Case: cb})
+	os.MkdirAll(dir, 0o755)
+	os.WriteFile(filepath.Join(dir, fmt.Sprintf("%s-%s-inprogress.json", property, sanitize(test))), b, 0o644)
+}
